@@ -95,6 +95,34 @@ fn mul_native(g: &JubJubExtended, k: &U320) -> Pt {
     Pt::from_jubjub(*g).mul(k).unwrap()
 }
 
+/// Crafted attack: shift the returned point by (delta, eps) such that the x-
+/// and y-accumulator residuals of the last fixed-base round are +t and -t (the
+/// pair a shared separation weight would merge). Rejected by the row model;
+/// always replayed on the real prover.
+fn cancelling_point_shift(h: &crate::e2::Honest) -> Vec<crate::e2::Dev> {
+    let mut devs = vec![];
+    if h.meta.outs.len() != 2 {
+        return devs;
+    }
+    let (ox, oy) = (h.meta.outs[0], h.meta.outs[1]);
+    let snap = &h.snap;
+    let Some(anchor) = snap.gates.iter().position(|g| g.w[0] == ox && g.w[1] == oy) else { return devs };
+    if anchor == 0 {
+        return devs;
+    }
+    let g = &snap.gates[anchor - 1];
+    let (a, b, c) = (snap.witnesses[g.w[0]], snap.witnesses[g.w[1]], snap.witnesses[g.w[2]]);
+    let k = c * a * b * crate::m1::edwards_d();
+    if one() - k == zero() {
+        return devs;
+    }
+    for delta in [one(), fe(12345)] {
+        let eps = -(delta * (one() + k)) * inv(one() - k);
+        devs.push(crate::e2::Dev { script: vec![(ox, snap.witnesses[ox] + delta), (oy, snap.witnesses[oy] + eps)], tag: format!("cancelling-point-shift({})", hex(&delta)), must_confirm: true });
+    }
+    devs
+}
+
 fn seam_case(gn: &str, g: JubJubExtended, sn: &str, s: Fe, dn: &str, d: Digits, tier: Tier, explore: bool) -> GCase {
     let gadget = Gadget::new(&format!("fixed_base/{}/s={}/digits={}", gn, sn, dn), vec![s], move |c, ins| {
         let p = c.verif_fixed_base_signed_digits(ins[0], g, &d)?;
@@ -121,6 +149,9 @@ fn seam_case(gn: &str, g: JubJubExtended, sn: &str, s: Fe, dn: &str, d: Digits, 
     let mut c = GCase::new(gadget, e, &class);
     c.dev_stride = if explore { tier.pick(13, 1) } else { 0 };
     c.confirm = explore;
+    if explore {
+        c.named = Some(std::sync::Arc::new(|h: &crate::e2::Honest| cancelling_point_shift(h)));
+    }
     c
 }
 
@@ -145,6 +176,7 @@ pub fn cases(tier: Tier) -> Vec<GCase> {
             };
             let mut c = GCase::new(gadget, e, "mul_generator");
             c.dev_stride = tier.pick(13, 1);
+            c.named = Some(std::sync::Arc::new(|h: &crate::e2::Honest| cancelling_point_shift(h)));
             c.rewire = canonical && (tier == Tier::Thorough || (gn == "G" && (sn == "1" || sn == "rho")));
             out.push(c);
 
